@@ -186,6 +186,8 @@ class Engine:
         ck = self.ck
         oid = spec['id']
         cands = self.resolve_fn(spec['fn'], spec.get('crate'), spec.get('trait'))
+        if spec.get('free'):
+            cands = [f for f in cands if f.owner is None]
         if len(cands) != 1:
             ck.ob(rule, oid, False, 'ANCHOR-MISSING: %s resolves to %d functions; obligation "%s" can no longer be checked' % (spec['fn'], len(cands), spec.get('why', '')), spec['fn'])
             return None
